@@ -4,7 +4,7 @@ Dialect -> handler map), plus the name-generator prefixes of sql/pq/context.rs. 
 import re
 
 from ..common import gen_write
-from ..rustscan import ExtractError, read, mask, block_after, match_arms, enum_variants
+from ..rustscan import ExtractError, read, mask, block_after, match_arms, match_brace, enum_variants
 
 DIALECT = "prqlc/prqlc/src/sql/dialect.rs"
 
@@ -20,6 +20,52 @@ def fn_in(body, mbody, name):
         return None
     s, e = block_after(body, mbody, r"fn\s+%s\s*\([^{]*\{" % name)
     return norm(body[s:e])
+
+
+def hook_spans(m):
+    """[(start, end)] of the #[cfg(prqlc_verif)] items (attribute + the statement / block / let-with-block it guards) in masked text"""
+    spans = []
+    for mm in re.finditer(r"#\[cfg\(prqlc_verif\)\]", m):
+        k, depth, end = mm.end(), 0, None
+        while k < len(m):
+            ch = m[k]
+            if ch == "{" and depth == 0:
+                end = match_brace(m, k)
+                j = end + 1
+                while j < len(m) and m[j].isspace():
+                    j += 1
+                if j < len(m) and m[j] == ";":      # `let x = { ... };`
+                    end = j
+                break
+            if ch in "([":
+                depth += 1
+            elif ch in ")]":
+                depth -= 1
+            elif ch == ";" and depth == 0:
+                end = k
+                break
+            k += 1
+        if end is None:
+            raise ExtractError("unterminated cfg(prqlc_verif) item")
+        spans.append((mm.start(), end + 1))
+    return spans
+
+
+def code(rel):
+    """masked text (comments and string/char contents blanked) of a source file with the verification hooks blanked"""
+    m = mask(read(rel))
+    out = list(m)
+    for a, b in hook_spans(m):
+        for k in range(a, b):
+            if out[k] != "\n":
+                out[k] = " "
+    return "".join(out)
+
+
+def body_of(c, pattern):
+    """normalised body of the first fn matching `pattern` in masked code"""
+    s, e = block_after(c, c, pattern)
+    return norm(c[s:e])
 
 
 def quote_of(txt):
@@ -81,10 +127,12 @@ def extract():
         per[st] = (quote_of(q) if q is not None else default[0], style_of(sty) if sty is not None else default[1])
     info["dialects"] = [(v.lower(), per[hmap[v]][0], per[hmap[v]][1]) for v in variants]
 
+    # ---- name generation.  Everything below is pinned on code text with comments, string contents and
+    # #[cfg(prqlc_verif)] hook items blanked (hooks are add-only logging, not part of the program).
     ctx = read("prqlc/prqlc/src/sql/pq/context.rs")
-    mc = re.search(r'col_name:\s*NameGenerator::new\("([^"]*)"\),\s*table_name:\s*NameGenerator::new\("([^"]*)"\),', ctx)
+    mc = re.search(r'col_name:\s*NameGenerator::new\("([^"]*)"\),\s*table_name:\s*NameGenerator::new\("([^"]*)"\),\s*\.\.Default::default\(\)', ctx)
     if not mc:
-        raise ExtractError("context.rs: NameGenerator prefixes not found")
+        raise ExtractError("context.rs: NameGenerator prefixes not found (or the other fields are no longer defaulted)")
     info["col_prefix"], info["table_prefix"] = mc.group(1), mc.group(2)
     ig = read("prqlc/prqlc/src/utils/id_gen.rs")
     mi = mask(ig)
@@ -94,21 +142,85 @@ def extract():
     s, e = block_after(ig, mi, r"pub\s+fn\s+gen\s*\(&mut self\)\s*->\s*T\s*\{")
     if norm(ig[s:e]) != "let id = self.next_id; self.next_id += 1; T::from(id)":
         raise ExtractError("IdGenerator::gen changed")
-    # the three places where generated names are made collision-free
-    pp = read("prqlc/prqlc/src/sql/pq/postprocess.rs")
-    mp = mask(pp)
-    s, e = block_after(pp, mp, r"fn\s+assign_names\b[^{]*\{")
-    an = norm(pp[s:e])
-    if ("let mut names = HashSet::new(); for decl in decls.sorted_by_key(|d| d.id.get()) { while decl.name.is_none() || names.contains(decl.name.as_ref().unwrap()) { "
-            "decl.name = Some(Ident::from_name(ctx.anchor.table_name.gen())); } names.insert(decl.name.clone().unwrap()); }") not in an:
-        raise ExtractError("assign_names: the regenerate-until-unused loop is no longer the modelled one")
-    if norm("while name .as_ref() .map_or(true, |n| self.relation_instance_names.contains(n)) { *name = Some(self.ctx.anchor.table_name.gen()); } self.relation_instance_names.insert(name.clone().unwrap());") not in norm(re.sub(r"//[^\n]*", "", pp)):
+
+    cx = code("prqlc/prqlc/src/sql/pq/context.rs")
+    pp = code("prqlc/prqlc/src/sql/pq/postprocess.rs")
+    an = code("prqlc/prqlc/src/sql/pq/anchor.rs")
+    ge = code("prqlc/prqlc/src/sql/gen_expr.rs")
+
+    # (1) AnchorContext::gen_table_name (99a89d3): Model/NameGen.v gen_unreserved
+    GEN_UNRESERVED = "loop { let name = self.table_name.gen(); if !self.reserved_table_names.contains(&name.to_lowercase()) { return name; } }"
+    if body_of(cx, r"pub\s+fn\s+gen_table_name\s*\(&mut self\)\s*->\s*String\s*\{") != GEN_UNRESERVED:
+        raise ExtractError("AnchorContext::gen_table_name is no longer the modelled loop")
+    if not re.search(r"pub reserved_table_names: HashSet<String>,", cx):
+        raise ExtractError("AnchorContext::reserved_table_names is no longer a HashSet<String>")
+    # (2) assign_names: the reserved set, the closure (same loop as (1)) and the regenerate-until-unused loop
+    ASSIGN = ("let user_names: Vec<String> = (ctx.anchor.table_decls.values()) .filter_map(|d| d.name.as_ref().map(|i| i.name.to_lowercase())) .chain( "
+              "(ctx.anchor.relation_instances.values()) .filter_map(|i| i.table_ref.name.as_ref().map(|n| n.to_lowercase())), ) .collect(); "
+              "ctx.anchor.reserved_table_names.extend(user_names); "
+              "let mut table_name = std::mem::take(&mut ctx.anchor.table_name); let reserved = ctx.anchor.reserved_table_names.clone(); "
+              "let mut gen_name = || loop { let name = table_name.gen(); if !reserved.contains(&name.to_lowercase()) { break name; } }; "
+              "let decls = ctx.anchor.table_decls.values_mut(); let mut names = HashSet::new(); "
+              "for decl in decls.sorted_by_key(|d| d.id.get()) { while decl.name.is_none() || names.contains(decl.name.as_ref().unwrap()) { "
+              "decl.name = Some(Ident::from_name(gen_name())); } names.insert(decl.name.clone().unwrap()); } "
+              "ctx.anchor.table_name = table_name; "
+              "RelVarNameAssigner { ctx, relation_instance_names: Default::default(), } .fold_sql_query(query) .unwrap()")
+    if body_of(pp, r"fn\s+assign_names\b[^{]*\{") != ASSIGN:
+        raise ExtractError("assign_names: reserved names / the regenerate-until-unused loop are no longer the modelled ones")
+    # (3) RelVarNameAssigner::fold_rel: alias inferred from the table name, then the same loop with (1) inlined
+    RELVAR = ("if name.is_none() { *name = match &rel.kind { RelationExprKind::Ref(tid) => { let table_decl = &self.ctx.anchor.table_decls[tid]; "
+              "table_decl.name.as_ref().map(|i| i.name.clone()) } _ => None, }; } "
+              "while name .as_ref() .map_or(true, |n| self.relation_instance_names.contains(n)) { "
+              "*name = Some(loop { let candidate = self.ctx.anchor.table_name.gen(); let reserved = &self.ctx.anchor.reserved_table_names; "
+              "if !reserved.contains(&candidate.to_lowercase()) { break candidate; } }); } "
+              "self.relation_instance_names.insert(name.clone().unwrap());")
+    if RELVAR not in norm(pp):
         raise ExtractError("RelVarNameAssigner: the regenerate-until-unused loop is no longer the modelled one")
-    an2 = norm(read("prqlc/prqlc/src/sql/pq/anchor.rs"))
-    an2 = norm(read("prqlc/prqlc/src/sql/pq/anchor.rs"))      # norm() drops // comments
-    if ("if let Some(new) = &mut new_name { if used_new_names.contains(new) { while used_new_names.contains(new) { *new = ctx.col_name.gen(); } ctx.column_names.insert(*old_cid, new.clone()); } "
-            "used_new_names.insert(new.clone()); ctx.column_names.insert(new_cid, new.clone()); }") not in an2:
+    if "let outer_names = std::mem::take(&mut self.relation_instance_names); let res = self.fold_sql_transforms(pipeline)?; self.relation_instance_names = outer_names;" not in norm(pp):
+        raise ExtractError("RelVarNameAssigner: the scope of relation_instance_names (one atomic pipeline) changed")
+    # (4) ensure_column_name: Model/NameGen.v ensure_column_name (UNCHECKED generation; made unique at (5) / (6))
+    ENSURE = ("let decl = &self.column_decls[&cid]; if let ColumnDecl::RelationColumn(_, _, col) = decl { match col { "
+              "RelationColumn::Single(Some(name)) => { let entry = self.column_names.entry(cid); return Some(entry.or_insert_with(|| name.clone())); } "
+              "RelationColumn::Wildcard => return None, _ => {} } } "
+              "let entry = self.column_names.entry(cid); Some(entry.or_insert_with(|| self.col_name.gen()))")
+    if body_of(cx, r"fn\s+ensure_column_name\b[^{]*\{") != ENSURE:
+        raise ExtractError("ensure_column_name is no longer the modelled function")
+    # (5) anchor_split: per column of the split (75c6718)
+    SPLIT = ("let old_name = ctx.ensure_column_name(*old_cid).cloned(); let mut new_name = old_name; "
+             "if let Some(new) = &mut new_name { if used_new_names.contains(new) { while used_new_names.contains(new) { *new = ctx.col_name.gen(); } "
+             "ctx.column_names.insert(*old_cid, new.clone()); } used_new_names.insert(new.clone()); ctx.column_names.insert(new_cid, new.clone()); }")
+    if SPLIT not in norm(an) or "let mut used_new_names = HashSet::new(); for old_cid in cols_at_split {" not in norm(an):
         raise ExtractError("anchor_split: the rename-on-duplicate step is no longer the modelled one")
+    # (6) translate_select_item: the alias of an unnamed column (755de8e)
+    ALIAS = ("let ident = expected.cloned().unwrap_or_else(|| { let mut name = ctx.anchor.col_name.gen(); "
+             "while ctx.anchor.column_names.values().any(|n| *n == name) { name = ctx.anchor.col_name.gen(); } name });")
+    if ALIAS not in norm(ge):
+        raise ExtractError("translate_select_item: the generated alias is no longer regenerated until unused")
+    # (7) inventory: no other place draws from the two generators or touches the reserved set
+    sites = {}
+    import os
+    from ..common import REPO
+    root = os.path.join(REPO, "prqlc/prqlc/src")
+    for dp, _, fs in os.walk(root):
+        for f in sorted(fs):
+            if not f.endswith(".rs"):
+                continue
+            rel = os.path.relpath(os.path.join(dp, f), REPO)
+            c = code(rel)
+            for what in (r"\bcol_name\s*\.\s*gen\s*\(", r"\btable_name\s*\.\s*gen\s*\(", r"\bgen_table_name\s*\(", r"\breserved_table_names\b", r"NameGenerator::new\s*\("):
+                k = len(re.findall(what, c))
+                if k:
+                    sites[(rel[len("prqlc/prqlc/src/"):], what)] = k
+    EXPECT = {
+        ("sql/pq/context.rs", r"\bcol_name\s*\.\s*gen\s*\("): 1, ("sql/pq/anchor.rs", r"\bcol_name\s*\.\s*gen\s*\("): 1, ("sql/gen_expr.rs", r"\bcol_name\s*\.\s*gen\s*\("): 2,
+        ("sql/pq/context.rs", r"\btable_name\s*\.\s*gen\s*\("): 1, ("sql/pq/postprocess.rs", r"\btable_name\s*\.\s*gen\s*\("): 2,
+        ("sql/pq/context.rs", r"\bgen_table_name\s*\("): 1, ("sql/gen_query.rs", r"\bgen_table_name\s*\("): 1,
+        ("sql/pq/context.rs", r"\breserved_table_names\b"): 2, ("sql/pq/postprocess.rs", r"\breserved_table_names\b"): 3,
+        ("sql/pq/context.rs", r"NameGenerator::new\s*\("): 2,
+    }
+    if sites != EXPECT:
+        diff = sorted(set(sites.items()) ^ set(EXPECT.items()))
+        raise ExtractError("name-generation call sites changed: %s" % diff)
     return info
 
 
